@@ -1362,7 +1362,7 @@ fn main() {
     let mut t = Trace::from_args();
     let seed = seed_from_env();
     let thorough = arg_str("--tier").as_deref() == Some("thorough");
-    let nseq = arg_u64("--seqs", if thorough { 700 } else { 110 });
+    let nseq = arg_u64("--seqs", if thorough { 700 } else { 220 });
     let len = arg_u64("--len", 40);
     let mut rng = Rng::new(seed);
     scenario_directed(&mut t);
